@@ -57,6 +57,7 @@ CONSTANTS
   FnBeforeRetry,          \* FALSE (code): the user function is called only on a path that commits
   BroadcastOnResizeEnd,   \* TRUE (code)
   UnlockOnNewerTable,     \* TRUE (code): the retry path after `newer table exists` unlocks first
+  LoadOnMissWaits,        \* FALSE (code): a lookup never consults the resize flag; TRUE: on a miss it waits for a resize in progress
   RangeSnapshotsTable,    \* TRUE (code): a traversal walks the one table generation it loaded at the start
   ZeroOnAbsentDelete      \* TRUE (fixed code): Compute(delete) on an absent key returns the zero value on every path
 
@@ -251,7 +252,9 @@ L3r:        if tabs[l_t].cells[l_b][l_c][l_s].val = l_v then                    
 L3n:  l_cand := l_cand \ {l_s};
     end while;
 L4: if l_c < Len(tabs[l_t].cells[l_b]) then l_c := l_c + 1; goto L2;                   \* LoadPointer(&b.next)
+    elsif LoadOnMissWaits /\ resizing then goto L4w;
     else lres[self] := [rv |-> NilV, ok |-> FALSE]; return; end if;
+L4w: await ~resizing; goto L1;
 end procedure;
 
 \* ---- doCompute (map.go:347, mapof.go:294); result in cres[self] ----
@@ -970,26 +973,41 @@ L4(self) == /\ pc[self] = "L4"
                        /\ pc' = [pc EXCEPT ![self] = "L2"]
                        /\ UNCHANGED << lres, stack, lk, l_t, l_b, l_cand, l_s, 
                                        l_v, l_k >>
-                  ELSE /\ lres' = [lres EXCEPT ![self] = [rv |-> NilV, ok |-> FALSE]]
-                       /\ pc' = [pc EXCEPT ![self] = Head(stack[self]).pc]
-                       /\ l_t' = [l_t EXCEPT ![self] = Head(stack[self]).l_t]
-                       /\ l_b' = [l_b EXCEPT ![self] = Head(stack[self]).l_b]
-                       /\ l_c' = [l_c EXCEPT ![self] = Head(stack[self]).l_c]
-                       /\ l_cand' = [l_cand EXCEPT ![self] = Head(stack[self]).l_cand]
-                       /\ l_s' = [l_s EXCEPT ![self] = Head(stack[self]).l_s]
-                       /\ l_v' = [l_v EXCEPT ![self] = Head(stack[self]).l_v]
-                       /\ l_k' = [l_k EXCEPT ![self] = Head(stack[self]).l_k]
-                       /\ lk' = [lk EXCEPT ![self] = Head(stack[self]).lk]
-                       /\ stack' = [stack EXCEPT ![self] = Tail(stack[self])]
+                  ELSE /\ IF LoadOnMissWaits /\ resizing
+                             THEN /\ pc' = [pc EXCEPT ![self] = "L4w"]
+                                  /\ UNCHANGED << lres, stack, lk, l_t, l_b, 
+                                                  l_c, l_cand, l_s, l_v, l_k >>
+                             ELSE /\ lres' = [lres EXCEPT ![self] = [rv |-> NilV, ok |-> FALSE]]
+                                  /\ pc' = [pc EXCEPT ![self] = Head(stack[self]).pc]
+                                  /\ l_t' = [l_t EXCEPT ![self] = Head(stack[self]).l_t]
+                                  /\ l_b' = [l_b EXCEPT ![self] = Head(stack[self]).l_b]
+                                  /\ l_c' = [l_c EXCEPT ![self] = Head(stack[self]).l_c]
+                                  /\ l_cand' = [l_cand EXCEPT ![self] = Head(stack[self]).l_cand]
+                                  /\ l_s' = [l_s EXCEPT ![self] = Head(stack[self]).l_s]
+                                  /\ l_v' = [l_v EXCEPT ![self] = Head(stack[self]).l_v]
+                                  /\ l_k' = [l_k EXCEPT ![self] = Head(stack[self]).l_k]
+                                  /\ lk' = [lk EXCEPT ![self] = Head(stack[self]).lk]
+                                  /\ stack' = [stack EXCEPT ![self] = Tail(stack[self])]
             /\ UNCHANGED << tabs, cur, nextGen, resizing, rmu, waiters, clk, 
                             done, fncalls, cres, rvis, pcnt, hint, known, rz_t, 
                             rz_new, rz_b, rz_nb, rz_cnt, kind, dk, dv, dfn, 
                             d_t, d_b, d_pos, d_old, d_r, d_ins, d_fnres, 
                             d_fndone, d_left, r_t, r_b, r_ents, r_i, c_t, ci >>
 
+L4w(self) == /\ pc[self] = "L4w"
+             /\ ~resizing
+             /\ pc' = [pc EXCEPT ![self] = "L1"]
+             /\ UNCHANGED << tabs, cur, nextGen, resizing, rmu, waiters, clk, 
+                             done, fncalls, lres, cres, rvis, pcnt, stack, 
+                             hint, known, rz_t, rz_new, rz_b, rz_nb, rz_cnt, 
+                             lk, l_t, l_b, l_c, l_cand, l_s, l_v, l_k, kind, 
+                             dk, dv, dfn, d_t, d_b, d_pos, d_old, d_r, d_ins, 
+                             d_fnres, d_fndone, d_left, r_t, r_b, r_ents, r_i, 
+                             c_t, ci >>
+
 load(self) == L1(self) \/ L2(self) \/ L3(self) \/ L3n(self) \/ L3e(self)
                  \/ L3v(self) \/ L3k(self) \/ L3c(self) \/ L3r(self)
-                 \/ L4(self)
+                 \/ L4(self) \/ L4w(self)
 
 DC0(self) == /\ pc[self] = "DC0"
              /\ IF kind[self] \in {"LoadOrStore", "LoadOrCompute"}
